@@ -414,5 +414,58 @@ fn main() {
             check_single(ctx, &a, &sizes, &offs, false);
             check_corners(ctx, a.top_left, b.top_left);
         });
+        // numerically special operands: powers of two and their neighbours in coordinates and sizes
+        // (uniform sampling practically never produces a width of exactly 65 536; added after seeded
+        // `C16-12`, an area product that wraps to zero for 2^16 x 2^16 and 2^20 x 2^20)
+        fn special(rng: &mut Rng, max_log: u32) -> u32 {
+            let k = rng.below(max_log as u64 + 1) as u32;
+            let base = 1u32 << k;
+            let v = match rng.below(8) {
+                0 => base.saturating_sub(1),
+                1 => base + 1,
+                2 => base + base / 2,
+                3 => base.saturating_sub(rng.below(4) as u32),
+                4 => base + rng.below(4) as u32,
+                _ => base,
+            };
+            v.min(1 << max_log)
+        }
+        fn sr(rng: &mut Rng) -> Rectangle {
+            let c = |rng: &mut Rng| {
+                let v = special(rng, 20) as i32;
+                match rng.below(5) {
+                    0 => 0,
+                    1 | 2 => -v,
+                    _ => v,
+                }
+            };
+            let s = |rng: &mut Rng| if rng.chance(1, 12) { 0 } else { special(rng, 21) };
+            mk(c(rng), c(rng), s(rng), s(rng))
+        }
+        let ns = run.tier(600_000u64, 60_000_000u64);
+        run.generate("special-pairs", ns, false, 0.5, |ctx, _idx, rng| {
+            let a = sr(rng);
+            let b = match rng.below(4) {
+                0 => a,
+                1 => mk(a.top_left.x + rng.i32r(-2, 2), a.top_left.y + rng.i32r(-2, 2), a.size.width, a.size.height),
+                // centred on the origin, as `with_corners((-2^k, -2^k), (2^k - 1, 2^k - 1))` is
+                2 => {
+                    let (w, h) = (special(rng, 21), special(rng, 21));
+                    mk(-((w / 2) as i32), -((h / 2) as i32), w, h)
+                }
+                _ => sr(rng),
+            };
+            if ctx.wants_sample() {
+                ctx.sample(|| jobj! {"a" => fmt(&a), "b" => fmt(&b), "intersection" => fmt(&a.intersection(&b))});
+            }
+            check_pair(ctx, &a, &b);
+            check_pair(ctx, &b, &b);
+            let sizes = [(special(rng, 21), special(rng, 21)), (0, special(rng, 21)), (a.size.width, a.size.height)];
+            let offs = [rng.i32r(-3, 3), special(rng, 16) as i32, -(special(rng, 16) as i32)];
+            check_single(ctx, &a, &sizes, &offs, false);
+            check_single(ctx, &b, &sizes, &offs, false);
+            check_corners(ctx, a.top_left, b.top_left);
+            check_corners(ctx, b.top_left, Point::new(b.top_left.x + b.size.width as i32 - 1, b.top_left.y + b.size.height as i32 - 1));
+        });
     })
 }
